@@ -55,7 +55,10 @@ def sites():
             "pLSCF.plot_cluster", "plot.stab_plot+cov", "SSIcov.plot_stab+cov"]
 
 
-def draw(site, ct, lab, hide):
+FLIMS = {0: None, 1: (5.0, 20.0), 2: (25.0, 40.0)}      # catalogue frequencies are 12 Hz and 31 Hz
+
+
+def draw(site, ct, lab, hide, flim=None):
     import matplotlib.pyplot as plt
     from pyoma2 import algorithms as A
     from pyoma2.algorithms.data.result import SSIResult, pLSCFResult
@@ -66,10 +69,10 @@ def draw(site, ct, lab, hide):
     cov = site.endswith("+cov")
     base = site.replace("+cov", "")
     if base == "plot.stab_plot":
-        fig, ax = plot.stab_plot(ct["Fn"].copy(), lab.copy(), 1, nc - 1, ordmin=0, hide_poles=hide,
+        fig, ax = plot.stab_plot(ct["Fn"].copy(), lab.copy(), 1, nc - 1, ordmin=0, hide_poles=hide, freqlim=flim,
                                  Fn_cov=ct["Fn_cov"].copy() if cov else None)
     elif base == "plot.cluster_plot":
-        fig, ax = plot.cluster_plot(ct["Fn"].copy(), ct["Xi"].copy(), lab.copy(), ordmin=0, hide_poles=hide)
+        fig, ax = plot.cluster_plot(ct["Fn"].copy(), ct["Xi"].copy(), lab.copy(), ordmin=0, hide_poles=hide, freqlim=flim)
     else:
         cls, meth = base.split(".")
         if cls == "SSIcov":
@@ -81,7 +84,7 @@ def draw(site, ct, lab, hide):
             res = pLSCFResult(Fn_poles=ct["Fn"].copy(), Xi_poles=ct["Xi"].copy(), Phi_poles=ct["Phi"].copy(), Lab=lab.copy())
         alg._set_data(np.zeros((8, 3)), fs=100.0)
         alg.result = res
-        fig, ax = getattr(alg, meth)(hide_poles=hide)
+        fig, ax = getattr(alg, meth)(hide_poles=hide, freqlim=flim)
     m = markers(ax)
     plt.close("all")
     return m
@@ -92,6 +95,7 @@ def check_case(col, cfgname, t, only=None):
     adm = t["post"]["adm"] if "adm" in t["post"] else None
     marks = t["post"]["marks"]
     hide = bool(t["act"]["d"]["hide"])
+    flim = FLIMS[t["act"]["d"]["flim"]]
     ct = pw.concrete(tab)
     lab = np.array([[1 if (not pw.is_nan(c) and c["cj"]) else 0 for c in row] for row in tab])
     for site in (only or sites()):
@@ -103,7 +107,7 @@ def check_case(col, cfgname, t, only=None):
         exp_st = sorted(coord(x) for x in marks["stable"])
         exp_un = sorted(coord(x) for x in marks["unstable"])
         try:
-            st, un = draw(site, ct, lab, hide)
+            st, un = draw(site, ct, lab, hide, flim)
         except Exception as e:
             col.violation(f"{site}/raised:{type(e).__name__}", f"{site} raised {e!r}",
                           {"config": cfgname, "transition": t, "site": site})
@@ -114,8 +118,8 @@ def check_case(col, cfgname, t, only=None):
         if un != exp_un:
             bad.append("unstable_markers")
         if bad:
-            col.violation(f"{site}/{'+'.join(bad)}/{'hide' if hide else 'show'}",
-                          f"{site} hide_poles={hide}: stable {st} (expected {exp_st}); unstable {un} (expected {exp_un}); table {tab}",
+            col.violation(f"{site}/{'+'.join(bad)}/{'hide' if hide else 'show'}" + ("/freqlim" if flim else ""),
+                          f"{site} hide_poles={hide} freqlim={flim}: stable {st} (expected {exp_st}); unstable {un} (expected {exp_un}); table {tab}",
                           {"config": cfgname, "transition": t, "site": site})
     if marks["stable"] and (marks["unstable"] or hide):
         col.mark_nontrivial((cfgname, tab, hide))
@@ -145,7 +149,7 @@ def run(ctx):
             "Tables": Raw(f"[1..{c['nr']} -> [1..{c['nc']} -> {ALPHA}]]"),
             "FDen": pw.FDEN, "XDen": pw.XDEN, "CDen": pw.CDEN, "Shapes": pw.shapes_tla(),
             "MpcGE": ge, "MpdLE": le, "HcSets": Raw("{}"), "ScSets": Raw("{}"), "ExSets": Raw("{}"),
-            "DrawSets": Raw("{[hide |-> TRUE], [hide |-> FALSE]}"), "Focus": "draw",
+            "DrawSets": Raw("{[hide |-> h, flim |-> f] : h \\in BOOLEAN, f \\in {0, 1, 2}}"), "Focus": "draw",
         }
         mod, cfg = ctx.model("Poles", "dr_" + c["name"], consts, invariants=["MarkersExact"],
                              action_constraints=["Emit"], view="View")
